@@ -51,6 +51,12 @@ type scenario struct {
 	// AttachExt attaches a receive extension (wsflate.MessageState) to the Reader although the
 	// state does not say "extended": reserved bits must still be refused by the header check.
 	AttachExt bool
+	// ExactLen: the consumer of the Reader entry reads exactly Header.Length bytes of a message that is a single
+	// final frame (nothing at all for an empty one) and then goes on with NextFrame - "all current message
+	// bytes received" - instead of reading until io.EOF.
+	ExactLen bool
+	// EOFData: the transport returns its last bytes together with io.EOF.
+	EOFData bool
 	// Stalls: frame-start offsets (Reader entry) at which the transport reports one transient error
 	// with no data before serving the frame; the caller retries. The verdict on the offending frame
 	// must not depend on it.
@@ -112,7 +118,7 @@ func (s scenario) state() ws.State {
 func (s scenario) describe() interface{} {
 	return map[string]interface{}{
 		"entry": s.Entry, "side": s.Side.String(), "extended": s.Extended, "limit": s.Limit, "bad_index": s.Bad,
-		"broken": s.Broken.String(), "too_large": s.TooLarge, "chunks": s.Chunks, "bufsize": s.BufSize, "frames": ref.Describe(s.Frames), "attach_ext": s.AttachExt, "offending_frame_announces": s.Announce, "stall_at_frame_starts": s.Stalls,
+		"broken": s.Broken.String(), "too_large": s.TooLarge, "chunks": s.Chunks, "bufsize": s.BufSize, "frames": ref.Describe(s.Frames), "attach_ext": s.AttachExt, "offending_frame_announces": s.Announce, "stall_at_frame_starts": s.Stalls, "exact_len_consumer": s.ExactLen, "eof_with_data": s.EOFData,
 	}
 }
 
@@ -191,6 +197,7 @@ func openStart(valid []ref.Frame) int {
 func runReader(s scenario) error {
 	data := s.wire()
 	src := tx.NewSrc(data, s.Chunks)
+	src.EOFWithData = s.EOFData
 	if len(s.Stalls) > 0 {
 		src.StallAt = map[int]bool{}
 		for _, off := range s.Stalls {
@@ -255,6 +262,16 @@ func runReader(s scenario) error {
 		if h.OpCode != ws.OpCode(e.Op) {
 			return fmt.Errorf("NextFrame opcode %v, want %#x", h.OpCode, e.Op)
 		}
+		if s.ExactLen && e.First == e.At && h.Fin {
+			p := make([]byte, h.Length)
+			if _, err := io.ReadFull(rd, p); err != nil && !(err == io.EOF && len(p) == 0) {
+				return fmt.Errorf("reading exactly %d bytes of %v (valid part of the stream): %v", h.Length, e, err)
+			}
+			if !bytes.Equal(p, e.Payload) {
+				return fmt.Errorf("%v delivered as %x", e, p)
+			}
+			continue
+		}
 		p, err := readUntil(rd, s.BufSize, idle)
 		if err != io.EOF {
 			return fmt.Errorf("reading %v (valid part of the stream): %v", e, err)
@@ -295,6 +312,19 @@ func runReader(s scenario) error {
 		}
 		if !bytes.Equal(p, openPayload) {
 			return fmt.Errorf("before the error %d bytes were delivered for the open message (%x), the valid fragments carry %d (%x)", len(p), p, len(openPayload), openPayload)
+		}
+	}
+	// Looking again after the error must not hand out anything of the offending frame or of what follows it.
+	// Only when no message was open: then Read does not fetch frames by itself (with an open message it would
+	// go on parsing from wherever the refused frame left the stream, which nobody defines).
+	for i := 0; i < 3 && len(open) == 0; i++ {
+		buf := make([]byte, 64)
+		n, _ := rd.Read(buf)
+		if n < 0 || n > len(buf) {
+			return fmt.Errorf("Read after the error returned n=%d for a %d-byte buffer", n, len(buf))
+		}
+		if bytes.IndexByte(buf[:n], marker) >= 0 {
+			return fmt.Errorf("a Read after the error delivered %d bytes of the refused frame (or of what follows it): %x", n, buf[:n])
 		}
 	}
 	if len(ictl) != len(wantIctl) {
@@ -686,6 +716,11 @@ func TestRuleViolation(t *testing.T) {
 		s.BufSize = rapid.SampledFrom([]int{0, 1, 3, 64}).Draw(t, "bufsize")
 		s.AttachExt = rapid.IntRange(0, 3).Draw(t, "attachExt") == 0
 		s.LazyHandler = rapid.IntRange(0, 3).Draw(t, "lazyHandler") == 0
+		s.ExactLen = s.Entry == "Reader" && rapid.IntRange(0, 2).Draw(t, "exactLen") == 0
+		s.EOFData = rapid.IntRange(0, 2).Draw(t, "eofWithData") == 0
+		if s.EOFData && rapid.Bool().Draw(t, "noTail") {
+			s.Frames = s.Frames[:s.Bad+1] // the offending frame is the last thing the transport delivers
+		}
 		if s.Entry == "Reader" && rapid.IntRange(0, 3).Draw(t, "stalls?") == 0 {
 			pos := 0
 			for i, f := range s.Frames {
